@@ -296,4 +296,24 @@ Proof.
   apply (dict_str_ok_iff F yl false None t d).
 Qed.
 
+(* a Set is accepted exactly when every item is accepted (the items' results are hashable because the item type is) *)
+Lemma set_ok_iff t v l orig : hashable_ty t = true -> seq_items v = Some l ->
+  is_ok (A orig (TSet t) v) = forallb (fun x => is_ok (A orig t x)) l.
+Proof.
+  intros Hh Hs. rewrite <- map_ares_ok. simpl. rewrite Hs.
+  destruct (map_ares (adapt_g F yl false orig t) l) as [[r|]|e] eqn:E; try reflexivity.
+  assert (Hr : forallb hashable r = true).
+  { apply map_ares_spec in E. eapply forallb_Forall2; [exact E|]. apply Forall_forall. intros x _ w Hw.
+    eapply shaped_hashable; [exact Hh|]. eapply adapt_sound; exact Hw. }
+  now rewrite Hr.
+Qed.
+
+Lemma set_items_parse t v l : wf_ty (TSet t) = true -> seq_items v = Some l ->
+  accepts F yl (TSet t) v = forallb (accepts_item F yl t) l.
+Proof.
+  intros Hwf Hs. pose proof Hwf as Hwf'. simpl in Hwf'. apply andb_true_iff in Hwf'. destruct Hwf' as [Hh _].
+  rewrite accepts_object; [|exact Hwf|destruct v; try discriminate; reflexivity|destruct v; discriminate].
+  unfold accepts_item. now apply set_ok_iff.
+Qed.
+
 End Complete.
